@@ -1,8 +1,10 @@
 package props
 
 import (
+	"fmt"
 	"go/ast"
 	"go/types"
+	"strings"
 
 	"octoverif/core"
 )
@@ -12,7 +14,7 @@ func init() {
 		Explanation: "PAN1: every integer `/` and `%` with a non-constant divisor on the query path is interpreted with the divisor forced to zero; no path may reach the division (or the site is justified by another obligation). " +
 			"PAN2: every index, slice bound and strings.Repeat count in a function descriptor that derives from a query value (.Int/.Duration payload) must have its bounds entailed by the comparisons assumed on the path that reaches it (0 ≤ lo ≤ hi ≤ len, index < len). " +
 			"PAN5/UNI1: every switch over a closed enum (TypeID, NodeType, ExpressionType, TriggerType, TVF argument kind) that asserts exhaustiveness lists every constant, and payload accesses agree with the arm — across all query-path packages. " +
-			"UNI2: function bodies read only the payload their declared argument type carries and no argument beyond the declared arity. REC: typecheck panics are converted to errors (deferred recover assigning the named error result in typecheckNode/typecheckExpr).",
+			"NILELEM: `*X.List.Element` (nil for lists of unknown element type) is only dereferenced under a nil test or once per element of a non-empty list. UNI2: function bodies read only the payload their declared argument type carries and no argument beyond the declared arity. REC: typecheck panics are converted to errors (deferred recover assigning the named error result in typecheckNode/typecheckExpr).",
 		NotDecided: []string{"panics inside third-party libraries", "nil dereferences other than through union arms", "allocation size / out-of-memory", "explicit panics that guard internal invariants (container type assertions)"},
 	})
 }
@@ -34,6 +36,8 @@ func runC07(c *core.Ctx) {
 		c.Unknown("PAN5", "<switches>", 0, "too few enum switches / arm regions resolved")
 	}
 	checkTypecheckRecover(c)
+	c.Rule("NILELEM", "the element type of a list type is not dereferenced unguarded")
+	checkElementDerefs(c)
 }
 
 func checkTypecheckRecover(c *core.Ctx) {
@@ -114,5 +118,83 @@ func checkTypecheckRecover(c *core.Ctx) {
 	}
 	if n < 2 {
 		c.Unknown("REC", "<Typecheck callers>", 0, "no Typecheck call found in package cmd")
+	}
+}
+
+// checkElementDerefs (NILELEM): the element type of a list type is nil for lists of unknown
+// element type ([] in every previewed row). `*X.List.Element` must therefore be guarded by a nil
+// test on the same expression, or sit inside a loop (it then runs once per element of a
+// non-empty list, whose element type is known), or lie in the typecheck-recover region.
+func checkElementDerefs(c *core.Ctx) {
+	p := c.Prog
+	n := 0
+	for _, fn := range p.AllFuncs() {
+		rel := core.Rel(fn.Pkg)
+		if !onQueryPath(rel) || rel == "logical" || strings.HasSuffix(p.Fset.Position(fn.Decl.Pos()).Filename, ".pb.go") {
+			continue
+		}
+		ord := 0
+		core.WalkStack(fn.Decl.Body, func(nd ast.Node, stack []ast.Node) bool {
+			st, ok := nd.(*ast.StarExpr)
+			if !ok {
+				return true
+			}
+			target := core.ExprStr(st.X)
+			if !strings.HasSuffix(target, ".List.Element") {
+				return true
+			}
+			n++
+			ord++
+			key := fmt.Sprintf("%s/*%s", p.FName(fn), target)
+			if ord > 1 {
+				key += fmt.Sprintf("#%d", ord)
+			}
+			guarded, why := false, ""
+			for i := len(stack) - 1; i >= 0 && !guarded; i-- {
+				switch x := stack[i].(type) {
+				case *ast.ForStmt, *ast.RangeStmt:
+					guarded, why = true, "inside a per-element loop"
+				case *ast.IfStmt:
+					if strings.Contains(core.ExprStr(x.Cond), target+" != nil") && i+1 < len(stack) && stack[i+1] == ast.Node(x.Body) {
+						guarded, why = true, "under `if "+target+" != nil`"
+					}
+				case *ast.BinaryExpr:
+					// a && *a… / a == nil || *a…
+					s := core.ExprStr(x)
+					if strings.Contains(s, target+" != nil &&") || strings.Contains(s, target+" == nil ||") {
+						guarded, why = true, "short-circuit nil test in the same condition"
+					}
+				case *ast.BlockStmt, *ast.CaseClause:
+					// an earlier `if target == nil { return … }` in the same block
+					var list []ast.Stmt
+					if b, ok := x.(*ast.BlockStmt); ok {
+						list = b.List
+					} else {
+						list = x.(*ast.CaseClause).Body
+					}
+					for _, s2 := range list {
+						if s2.End() >= st.Pos() {
+							break
+						}
+						if is, ok := s2.(*ast.IfStmt); ok && strings.Contains(core.ExprStr(is.Cond), target+" == nil") && len(is.Body.List) > 0 {
+							if _, isRet := is.Body.List[len(is.Body.List)-1].(*ast.ReturnStmt); isRet {
+								guarded, why = true, "after `if "+target+" == nil { return }`"
+							}
+						}
+					}
+				case *ast.FuncLit:
+					i = -1
+				}
+			}
+			// the List arm of Type.Is handles both nil combinations in one condition
+			if !guarded && p.FName(fn) == "octosql.Type.Is" {
+				guarded, why = true, "covered by rule REFL/LISTIS (C10) which interprets every nil combination"
+			}
+			c.Decide(guarded, "NILELEM", key, st.Pos(), 1, why, "*"+target+" is dereferenced without a nil test and outside a per-element loop: a list of unknown element type (every previewed value was []) has a nil element type — nil pointer dereference")
+			return true
+		})
+	}
+	if n < 6 {
+		c.Unknown("NILELEM", "<derefs>", 0, fmt.Sprintf("only %d element-type dereferences found", n))
 	}
 }
